@@ -33,7 +33,7 @@ def run(ctx):
                 ("wild" if const_str(x.args[0]) == "*" else ("partials" if x.func.attr == "extend" else "other"))
             app.append((kind, x))
     kinds = [k for k, _ in app]
-    c.floor("R1", "appends to the match list", len(app), 3)
+    c.expect("R1", "appends to the match list", len(app), 3, md, "the descriptor matcher no longer contributes all three kinds (exact key, partial descriptors, wildcard)")
     order_ok = True
     why = "exact key, then partial descriptors, then '*'"
     rank = {"exact": 0, "partials": 1, "wild": 2}
@@ -51,7 +51,7 @@ def run(ctx):
     for s in sorts:
         key = next((k.value for k in s.keywords if k.arg == "key"), None)
         rev = next((k.value for k in s.keywords if k.arg == "reverse"), None)
-        desc = (norm(key) == "len" and isinstance(rev, ast.Constant) and rev.value is True) or \
+        desc = (key is not None and norm(key) == "len" and isinstance(rev, ast.Constant) and rev.value is True) or \
                (isinstance(key, ast.Lambda) and norm(key.body).replace(" ", "") in ("-len(k)", "-len(x)", "-len(key)", "-len(p)"))
         ext = [x for k, x in app if k == "partials"]
         before = all(g.can_reach(a, b, follow_exc=False) for a in cfg_node_of(md, s) for e in ext for b in cfg_node_of(md, e))
@@ -65,31 +65,33 @@ def run(ctx):
          "the partial-descriptor predicate is no longer 'event == p or event.startswith(p + \".\")'", md.node)
     # ---- R2 internal-event cut-off ---------------------------------------------------------
     cut = [x for x in own_nodes(md.node) if isinstance(x, ast.If) and "startswith" in norm(x.test) and any(isinstance(s, ast.Return) for s in x.body)]
-    c.need(cut, "internal-event cut-off in _matching_descriptors")
-    cu = cut[0]
-    pref = set()
-    for x in ast.walk(cu.test):
-        s = const_str(x)
-        if s:
-            pref.add(s)
-    cn = g.nodes_of(cu.test)
-    exact = [n for k, x in app if k == "exact" for n in cfg_node_of(md, x)]
-    later = [n for k, x in app if k in ("partials", "wild") for n in cfg_node_of(md, x)]
-    ok = all(g.can_reach(e, t, follow_exc=False) for e in exact for t in cn) and all(g.can_reach(t, l, follow_exc=False) for t in cn for l in later)
-    c.ob("R2", ok, md, "cutoff-between-exact-and-partial", "synthetic events return after the exact match, before partials and '*'" if ok else
-         "the internal-event cut-off is not placed between the exact match and the partial/wildcard matches", cu)
-    syn = _synthetic_prefixes(p)
-    c.floor("R2", "synthetic event families constructed by the engine", len(syn), 4)
-    for fam, sites in sorted(syn.items()):
-        ok = fam in pref
-        f0, x0 = sites[0]
-        c.ob("R2", ok, f0, f"synthetic-family:{fam}", f"'{fam}*' events ({len(sites)} construction sites) are private to their exact handler" if ok else
-             f"the engine constructs '{norm(x0)[:50]}' events but the cut-off {sorted(pref)} does not cover '{fam}': a user wildcard would swallow them", x0)
+    if c.expect("R2", "internal-event cut-off in _matching_descriptors", len(cut), 1, md,
+                    "the descriptor matcher has no conditional early return for synthetic events (done.* / error.* / after.* / xstate.*) any more: "
+                    "they are matched by partial descriptors and the bare wildcard, or nothing but the exact key is ever matched"):
+        cu = cut[0]
+        pref = set()
+        for x in ast.walk(cu.test):
+            s = const_str(x)
+            if s:
+                pref.add(s)
+        cn = g.nodes_of(cu.test)
+        exact = [n for k, x in app if k == "exact" for n in cfg_node_of(md, x)]
+        later = [n for k, x in app if k in ("partials", "wild") for n in cfg_node_of(md, x)]
+        ok = all(g.can_reach(e, t, follow_exc=False) for e in exact for t in cn) and all(g.can_reach(t, l, follow_exc=False) for t in cn for l in later)
+        c.ob("R2", ok, md, "cutoff-between-exact-and-partial", "synthetic events return after the exact match, before partials and '*'" if ok else
+             "the internal-event cut-off is not placed between the exact match and the partial/wildcard matches", cu)
+        syn = _synthetic_prefixes(p)
+        c.floor("R2", "synthetic event families constructed by the engine", len(syn), 4)
+        for fam, sites in sorted(syn.items()):
+            ok = fam in pref
+            f0, x0 = sites[0]
+            c.ob("R2", ok, f0, f"synthetic-family:{fam}", f"'{fam}*' events ({len(sites)} construction sites) are private to their exact handler" if ok else
+                 f"the engine constructs '{norm(x0)[:50]}' events but the cut-off {sorted(pref)} does not cover '{fam}': a user wildcard would swallow them", x0)
     # ---- R3 forbidden (null) transitions stop the upward walk --------------------------------
     ce = p.method("BaseInterpreter", "_collect_eligible_transitions")
     g2 = cfg_of(ce.node)
     ftests = [n for n in g2.nodes if n.kind == "test" and isinstance(n.ast, ast.Attribute) and n.ast.attr == "forbidden"]
-    c.floor("R3", "forbidden test in the on-loop", len(ftests), 1)
+    c.expect("R3", "forbidden test in the on-loop", len(ftests), 1, ce, "candidate collection no longer tests for a null (forbidden) transition: it does not consume its event and ancestor handlers run")
     passes = [x for x in own_nodes(ce.node) if isinstance(x, ast.Call) and isinstance(x.func, ast.Name) and x.func.id == "_passes"]
     for ft in ftests:
         loop = [l for l in enclosing_loops(ce, ft.ast) if isinstance(l, ast.For)]
